@@ -46,25 +46,25 @@ namespace CV.C12
 /-- methods the proxy intercepts -/
 def hijackMethods : List String := ["POST", "GET", "PUT"]
 
-def underApi (e a v : Bytes) : Bool := e.isEmpty && a == lit "api" && v == lit "v0"
+def underApi (e a v : Bytes) : Bool := e.isEmpty && a == b!"api" && v == b!"v0"
 
 /-- the hijacked endpoint (and slash-style argument) named by the segments of a decoded path -/
 def classifySegs (segs : List Bytes) : Option (Endpoint × Option Bytes) :=
   match segs with
-  | [e, a, v, x] => if underApi e a v && x == lit "add" then some (.add, none) else none
+  | [e, a, v, x] => if underApi e a v && x == b!"add" then some (.add, none) else none
   | [e, a, v, x, y] =>
     if !underApi e a v then none
-    else if x == lit "pin" then
-      (if y == lit "add" then some (.pinAdd, none) else if y == lit "rm" then some (.pinRm, none)
-       else if y == lit "ls" then some (.pinLs, none) else if y == lit "update" then some (.pinUpdate, none)
+    else if x == b!"pin" then
+      (if y == b!"add" then some (.pinAdd, none) else if y == b!"rm" then some (.pinRm, none)
+       else if y == b!"ls" then some (.pinLs, none) else if y == b!"update" then some (.pinUpdate, none)
        else none)
-    else if x == lit "repo" then
-      (if y == lit "stat" then some (.repoStat, none) else if y == lit "gc" then some (.repoGC, none) else none)
+    else if x == b!"repo" then
+      (if y == b!"stat" then some (.repoStat, none) else if y == b!"gc" then some (.repoGC, none) else none)
     else none
   | [e, a, v, x, y, z] =>
-    if underApi e a v && x == lit "pin" && !z.isEmpty then
-      (if y == lit "add" then some (.pinAdd, some z) else if y == lit "rm" then some (.pinRm, some z)
-       else if y == lit "ls" then some (.pinLs, some z) else none)
+    if underApi e a v && x == b!"pin" && !z.isEmpty then
+      (if y == b!"add" then some (.pinAdd, some z) else if y == b!"rm" then some (.pinRm, some z)
+       else if y == b!"ls" then some (.pinLs, some z) else none)
     else none
   | _ => none
 
@@ -106,18 +106,18 @@ def doneOps (o : Output) : List Rpc := o.rpcs.filter (fun r => r.ok && r.name.mu
 
 /-- `p` denotes the requested path `arg` (as given, with the implicit /ipfs/ namespace, or with the CID in canonical form) -/
 def samePath (e : Env) (p arg : Bytes) : Bool :=
-  p == arg || p == lit "/ipfs/" ++ arg ||
+  p == arg || p == b!"/ipfs/" ++ arg ||
   (match e.cd arg with
-   | some c => p == lit "/ipfs/" ++ c
+   | some c => p == b!"/ipfs/" ++ c
    | none => false)
 
 /-- a boolean option as written in the IPFS HTTP API; none = spelling this reading does not constrain -/
 def optBool (v : Bytes) (dflt : Bool) : Option Bool :=
-  if v.isEmpty then some dflt else if v == lit "true" then some true else if v == lit "false" then some false else none
+  if v.isEmpty then some dflt else if v == b!"true" then some true else if v == b!"false" then some false else none
 
 /-- the requested pin type is honoured -/
 def typeHonoured (ty : Bytes) (direct : Bool) : Bool :=
-  if ty == lit "direct" then direct else if ty.isEmpty || ty == lit "recursive" then !direct else true
+  if ty == b!"direct" then direct else if ty.isEmpty || ty == b!"recursive" then !direct else true
 
 /-- optional trailing Unpin of `c`, as requested by a boolean option (`want` = some true: required) -/
 def unpinTail (want : Option Bool) (c : Bytes) (tail : List Rpc) : Bool :=
@@ -128,15 +128,19 @@ def unpinTail (want : Option Bool) (c : Bytes) (tail : List Rpc) : Bool :=
   | none, [u] => u.name == .unpin && u.cid == c
   | _, _ => false
 
+/-- the argument the request names: the slash segment, or the first `arg` query value -/
+def requestedArg (q : List (Bytes × Bytes)) (sl : Option Bytes) : Bytes :=
+  match sl with
+  | some a => a
+  | none => qGet q b!"arg"
+
 def opsAsRequested (i : Input) (ep : Endpoint) (sl : Option Bytes) (o : Output) : Bool :=
   let q := parseQuery (i.query.getD [])
-  let arg := match sl with
-    | some a => a
-    | none => qGet q "arg"
+  let arg := requestedArg q sl
   match ep with
   | .pinAdd =>
     (match doneOps o with
-     | [r] => r.name == .pinPath && samePath i.env r.path arg && typeHonoured (qGet q "type") r.direct && r.upd.isEmpty
+     | [r] => r.name == .pinPath && samePath i.env r.path arg && typeHonoured (qGet q b!"type") r.direct && r.upd.isEmpty
      | _ => false)
   | .pinRm =>
     (match doneOps o with
@@ -146,25 +150,25 @@ def opsAsRequested (i : Input) (ep : Endpoint) (sl : Option Bytes) (o : Output) 
     (doneOps o).isEmpty &&
     o.rpcs.any (fun r => r.ok && (if arg.isEmpty then r.name == .pins else r.name == .pinGet && some r.cid == i.env.cd arg))
   | .pinUpdate =>
-    (match qAll q "arg" with
+    (match qAll q b!"arg" with
      | frm :: to :: _ =>
        o.rpcs.any (fun r => r.ok && r.name == .resolve && samePath i.env r.path frm) &&
        (match doneOps o with
         | p :: tail =>
           p.name == .pinPath && samePath i.env p.path to && p.upd == i.env.resCid && !p.upd.isEmpty &&
-          unpinTail ((optBool (qGet q "unpin") true)) i.env.resCid tail
+          unpinTail ((optBool (qGet q b!"unpin") true)) i.env.resCid tail
         | [] => false)
      | _ => false)
   | .add =>
-    if optBool (qGet q "only-hash") false == some true then (doneOps o).isEmpty
+    if optBool (qGet q b!"only-hash") false == some true then (doneOps o).isEmpty
     else
       (match doneOps o with
        | p :: tail =>
-         p.name == .pin && !p.direct && p.pname == qGet q "name" &&
-         p.rmin == replVal q "replication-min" && p.rmax == replVal q "replication-max" &&
+         p.name == .pin && !p.direct && p.pname == qGet q b!"name" &&
+         p.rmin == replVal q b!"replication-min" && p.rmax == replVal q b!"replication-max" &&
          o.items.getLast? == some p.cid &&
-         unpinTail ((optBool (qGet q "pin") true).map (!·)) p.cid tail
-       | [] => optBool (qGet q "only-hash") false == none)
+         unpinTail ((optBool (qGet q b!"pin") true).map (!·)) p.cid tail
+       | [] => optBool (qGet q b!"only-hash") false == none)
   | .repoStat => (doneOps o).isEmpty && o.rpcs.any (fun r => r.ok && r.name == .peers)
   | .repoGC =>
     (match doneOps o with
